@@ -233,4 +233,16 @@ pub fn generate(g: &mut Gen, thorough: bool) {
         let data = data_of(&[[1.0, 2.0, 3.0, 2001.0], [4.0, 5.0, 6.0, 2002.0], [7.0, 8.0, 9.0, 2001.0]]);
         g.push(op_line("default", &[], &[], def, "both", "F", &data), "ctor-edge", true);
     }
+    // the two rotation conventions are transposes of each other, also for large angles with `exact`
+    for _ in 0..(if thorough { 400 } else { 40 }) {
+        let big = g.rng.chance(1, 2);
+        let a = |r: &mut Rng| if big { r.uniform(-40000.0, 40000.0) } else { r.uniform(-20.0, 20.0) };
+        let (rx, ry, rz) = (a(&mut g.rng), a(&mut g.rng), a(&mut g.rng));
+        let exact = if g.rng.chance(3, 4) { " exact" } else { "" };
+        let pv = format!("helmert rx={rx} ry={ry} rz={rz}{exact} convention=position_vector");
+        let cf = format!("helmert rx={rx} ry={ry} rz={rz}{exact} convention=coordinate_frame");
+        let pts = random_points(&mut g.rng, 4, false);
+        g.push(format!("S_C07T\t{}\t{}\t{}", crate::wire::escape(&pv), crate::wire::escape(&cf), data_of(&pts)), "oracle-convention-transpose", true);
+        g.push(op_line("default", &[], &[], &pv, "apply", "F", &data_of(&pts)), "model-convention", true);
+    }
 }
